@@ -47,6 +47,13 @@ def generate(rng, tier):
     if rng.random() < 0.08:
         sc["ops"] = [o for o in sc["ops"] if not scen.is_cmd(o)]  # no history at all
     sc["probe_seed"] = rng.getrandbits(30)
+    if rng.random() < 0.25:
+        sc["world"]["process_model"] = "session"
+        # ask for files early as well, so that a later nested history changes the right answer
+        files = gen.tree_files(sc["world"]["tree"])
+        if files:
+            at = rng.randrange(0, max(1, len(sc["ops"]) // 2) + 1)
+            sc["ops"].insert(at, scen.cmd("info", "-sf", "@R/" + rng.choice(files)))
     return sc
 
 
